@@ -887,6 +887,12 @@ pub fn run_c16_agent(cfg: &Cfg) -> i32 {
             let name = "always-managed";
             stmts.push(Stmt { node: candidate_policy(name, "/* bgpfu-fltr: AS65011 */", None), selected: Some((name.into(), "AS65011".into())), kind: "managed", dup_xmlns: false });
         }
+        // two managed statements may spell the same filter expression (a primary and a backup session
+        // for one customer): each of them is managed in its own right
+        if let Some((_, e)) = stmts.iter().filter_map(|s| s.selected.clone()).find(|(_, e)| canonical(e).is_some()) {
+            let name = "twin-of-the-first";
+            stmts.push(Stmt { node: candidate_policy(name, &format!("/* bgpfu-fltr: {e} */"), None), selected: Some((name.into(), e)), kind: "managed-same-expression", dup_xmlns: false });
+        }
         let cfg_tree = N::el(XNM, "configuration")
             .kid(N::el(XNM, "system").kid(N::leaf(XNM, "host-name", "r1")))
             .kid(N::el(XNM, "policy-options").kid(N::el(XNM, "prefix-list").kid(N::leaf(XNM, "name", "pl-1"))).kids(stmts.iter().map(|s| s.node.clone())));
